@@ -100,7 +100,7 @@ class Link(base.BaseObject):
         :param new: the vertex to add to the link
         """
         self._vertices.append(new)
-        if (new is not None) and (self not in new.links):
+        if (new is not None) and not any(lnk is self for lnk in new.links):
             new.add_to_link(self)
 
         self._invalidate_neighbor_caches()
